@@ -573,15 +573,30 @@ def check_elif_needs_if(ctx):
                      'block is an If', 2)
     m = ctx.repo.mod('slice_stmtlike')
 
-    def is_cls_is_if(e):
-        return isinstance(e, ast.Compare) and len(e.ops) == 1 and isinstance(e.ops[0], ast.Is) and isinstance(e.left, ast.Attribute) and \
-            e.left.attr == '__class__' and isinstance(e.comparators[0], ast.Name) and e.comparators[0].id == 'If'
+    def if_test_subject(e):
+        """The expression whose class is compared with `If`, for the spellings `X.__class__ is If`, `X.__class__ in (.., If, ..)`, `type(X) is If`,
+        `isinstance(X, If)` and the predicate attribute `X.is_If`; None when `e` is no such test."""
+        if isinstance(e, ast.Compare) and len(e.ops) == 1 and isinstance(e.ops[0], (ast.Is, ast.Eq, ast.In)) and \
+                any(isinstance(y, ast.Name) and y.id == 'If' for y in ast.walk(e.comparators[0])):
+            l = e.left
+            if isinstance(l, ast.Attribute) and l.attr == '__class__':
+                return l.value
+            if isinstance(l, ast.Call) and isinstance(l.func, ast.Name) and l.func.id == 'type' and len(l.args) == 1:
+                return l.args[0]
+        if isinstance(e, ast.Call) and isinstance(e.func, ast.Name) and e.func.id == 'isinstance' and len(e.args) == 2 and \
+                any(isinstance(y, ast.Name) and y.id == 'If' for y in ast.walk(e.args[1])):
+            return e.args[0]
+        if isinstance(e, ast.Attribute) and e.attr == 'is_If':
+            return e.value
+        return None
 
-    def lone_if_test(e):           # <something>[i].__class__ is If  (an element of a list of statements)
-        return is_cls_is_if(e) and isinstance(e.left.value, ast.Subscript)
+    def lone_if_test(e):           # the subject is an element of a list of statements: <something>[i]
+        sub = if_test_subject(e)
+        return sub is not None and any(isinstance(y, ast.Subscript) for y in ast.walk(sub))
 
-    def owner_if_test(e):          # <node>.a.__class__ is If
-        return is_cls_is_if(e) and isinstance(e.left.value, ast.Attribute) and e.left.value.attr == 'a'
+    def owner_if_test(e):          # the subject is a node reached without indexing: <target>.a, <target>
+        sub = if_test_subject(e)
+        return sub is not None and not any(isinstance(y, ast.Subscript) for y in ast.walk(sub))
     # private predicates whose result implies the lone-If test (`return ... and put_body[0].__class__ is If`)
     preds = set()
     for q, fis in m.funcs.items():
@@ -591,10 +606,29 @@ def check_elif_needs_if(ctx):
             rets = [r for r in walk_no_nested(fi.node) if isinstance(r, ast.Return) and r.value is not None]
             if len(rets) == 1 and any(lone_if_test(x) for x in ast.walk(rets[0].value)) and not any(owner_if_test(x) for x in ast.walk(rets[0].value)):
                 preds.add(fi.name)
+    # the put side only: what the statement-put entry point reaches inside the module (the get side turns an extracted `elif` into `if`,
+    # which is a different decision)
+    entry = [fi for fi in ctx.repo.funcs('slice_stmtlike', 'put_slice_stmtlike')]
+    if not entry:
+        raise AnalysisError('put_slice_stmtlike not found (anchor vanished)')
+    by_name = {}
+    for q, fis in m.funcs.items():
+        for fi in fis:
+            if not isinstance(fi.node, ast.Lambda):
+                by_name.setdefault(fi.name, []).append(fi)
+    reach, work = {fi.key for fi in entry}, list(entry)
+    while work:
+        f = work.pop()
+        for c in walk_no_nested(f.node):
+            if isinstance(c, ast.Call) and call_name(c) in by_name:
+                for g in by_name[call_name(c)]:
+                    if g.key not in reach:
+                        reach.add(g.key)
+                        work.append(g)
     n = 0
     for q, fis in m.funcs.items():
         for fi in fis:
-            if isinstance(fi.node, ast.Lambda) or fi.name in preds:
+            if isinstance(fi.node, ast.Lambda) or fi.name in preds or fi.key not in reach:
                 continue
             par = None
             binds = {}
@@ -621,7 +655,7 @@ def check_elif_needs_if(ctx):
                     elif isinstance(e, ast.Name) and depth < 2 and len(binds.get(e.id, [])) == 1:
                         out += expand(binds[e.id][0], depth + 1)
                     return out
-                flat = [y for c in conj for y in expand(c)]
+                flat = [z for c in conj for y in expand(c) for z in ast.walk(y)]
                 n += 1
                 ctx.check('R1.8', any(owner_if_test(y) for y in flat), fi.module, fi.qualname, f'lone-If decision: {norm(par.get(cur, cur) if cur is not x else x, 70)}',
                           'the put body is recognised as a lone `If` (to be written as `elif`) without asking whether the owner of the block is an `If`: into the '
